@@ -19,7 +19,8 @@ TIME_RE = re.compile(r"\b(t|d)=([0-9a-f]+|nan)")
 class C15(Property):
     id = "C15"
     # chain: C15Velocity ▸ C15ShiftLines ▸ C15Shift (▸ Lemmas/ShiftLaws) ▸ C15Map ▸ C15; all in namespace Rosu.C15
-    lean_module = "RosuModel.Props.C15Velocity"
+    lean_module = "RosuModel.Props.C15Full"
+    theorem_modules = ['RosuModel.Props.C15Velocity', 'RosuModel.Props.C15Ieee']   # files whose top-level theorems are all audited
     namespace = "Rosu.C15"
     design_ref = "5.15"
     required_theorems = ["sorted_perm", "sorted_nondecreasing", "sorted_stable", "postProcessBreaks_length", "orNewCombo_only_sets",
